@@ -163,6 +163,7 @@ func (db *DB) sendToWriteCh(entries []*kv.Entry, waitOnThrottle bool) (*request,
 		}
 		time.Sleep(200 * time.Microsecond)
 	}
+	verifhook.Yield(db, "db.write.admitted")
 	var size int64
 	count := int64(len(entries))
 	for _, e := range entries {
